@@ -604,3 +604,127 @@ func ruleBodyRewind(r *core.Reporter) {
 	}
 	r.Floor("body reads in module code", n, 5)
 }
+
+func init() {
+	register(&core.Rule{ID: "R-S3-FRESH-QUERY", Props: []string{"C19"}, Doc: "every listing link the S3 extractors emit (sub-folder links, next-page link) is the request URL with one parameter replaced: the url.Values a link is encoded from is obtained by a Query() call of its own — after a Set on a Values value no further Set on the same value is reachable without passing its defining Query() again. A parsed query shared across links keeps every earlier replacement: the continuation link of a truncated page then carries the last sub-folder's prefix and the rest of the level is never listed", Run: ruleS3FreshQuery})
+}
+
+func ruleS3FreshQuery(r *core.Reporter) {
+	p := r.P
+	n := 0
+	for _, fn := range p.FuncsInPkg(rel(pkgExtractor)) {
+		if !strings.HasPrefix(strings.ToLower(fn.Name()), "s3") {
+			continue
+		}
+		for _, f := range withAnon(fn) {
+			f := f
+			var sets []*ssa.Call
+			allInstrs(f, func(in ssa.Instruction) {
+				if c, ok := in.(*ssa.Call); ok && ir.IsCallTo(c, "(net/url.Values).Set", "(net/url.Values).Add", "(net/url.Values).Del") {
+					sets = append(sets, c)
+				}
+			})
+			for i, sc := range sets {
+				n++
+				r.Analysed(f)
+				key := fmt.Sprintf("%s/values#%d", core.FuncName(f), i+1)
+				v := ir.Strip(sc.Call.Args[0])
+				def, _ := v.(ssa.Instruction)
+				stop := func(x ssa.Instruction) bool { return def != nil && x == def }
+				again := false
+				res := ir.Reach([]ir.Pt{ir.After(sc)}, ir.Opts{Stop: stop})
+				for _, other := range sets {
+					if ir.Strip(other.Call.Args[0]) == v && res.Reached[other] {
+						again = true
+					}
+				}
+				if again {
+					r.Violated(key, p.InstrPos(sc), "the parsed query %s is modified for one link and modified again for another without being re-read from the request URL: the later link keeps the earlier replacement (a continuation link carrying a sub-folder's prefix walks that sub-folder instead of the rest of the level)", ir.Path(v))
+				} else {
+					r.Held(key, 1, "each link is encoded from its own Query()")
+				}
+			}
+		}
+	}
+	if n == 0 {
+		r.Held("s3/no-query-rewrites", 0, "the S3 extractors do not rewrite query parameters")
+	}
+}
+
+func init() {
+	register(&core.Rule{ID: "R-CONTENT-TYPE-FOLD", Props: []string{"C19", "C07"}, Doc: "extractor.isContentType compares case-insensitively on both sides: the two operands of its substring test are strings.ToLower results, or — for an operand that is not folded — every call site passes a constant that is already lower-case. Content types are case-insensitive and one predicate (IsM3U8) names `application/x-mpegURL` in mixed case: folding only the header makes that playlist type unrecognisable, and the dispatch silently falls through to 'no extractor'", Run: ruleContentTypeFold})
+}
+
+func ruleContentTypeFold(r *core.Reporter) {
+	p := r.P
+	fn := p.Func(rel(pkgExtractor), "isContentType")
+	if fn == nil || len(fn.Params) != 2 {
+		r.Held("extractor.isContentType/absent", 0, "no such helper (the predicates compare in another way)")
+		return
+	}
+	r.Analysed(fn)
+	var cmp *ssa.Call
+	allInstrs(fn, func(in ssa.Instruction) {
+		if c, ok := in.(*ssa.Call); ok && ir.IsCallTo(c, "strings.Contains", "strings.HasPrefix", "strings.EqualFold") {
+			cmp = c
+		}
+	})
+	if cmp == nil {
+		r.Undecided("extractor.isContentType/compare", fnPos(p, fn), "no substring / prefix comparison found")
+		return
+	}
+	if ir.IsCallTo(cmp, "strings.EqualFold") {
+		r.Held("extractor.isContentType/fold", 1, "compared with strings.EqualFold")
+		return
+	}
+	folded := func(v ssa.Value) (paramIdx int, isFolded bool) {
+		if c, ok := ir.Strip(v).(*ssa.Call); ok && ir.IsCallTo(c, "strings.ToLower", "strings.ToUpper") {
+			for i, pm := range fn.Params {
+				if ir.SameValue(c.Call.Args[0], pm) {
+					return i, true
+				}
+			}
+			return -1, true
+		}
+		for i, pm := range fn.Params {
+			if ir.SameValue(v, pm) {
+				return i, false
+			}
+		}
+		return -1, false
+	}
+	for k, a := range cmp.Call.Args[:2] {
+		idx, ok := folded(a)
+		if ok {
+			continue
+		}
+		if idx < 0 {
+			r.Undecided("extractor.isContentType/fold", p.InstrPos(cmp), "operand %d of the comparison is neither a folded nor a plain parameter", k)
+			return
+		}
+		// an unfolded parameter: every call site must pass an already lower-case constant
+		bad := ""
+		for _, cf := range p.ModFuncs {
+			if !core.InModule(cf) {
+				continue
+			}
+			allInstrs(cf, func(in ssa.Instruction) {
+				cc := ir.AsCall(in)
+				if cc == nil || cc.StaticCallee() != fn || bad != "" {
+					return
+				}
+				s, isConst := ir.ConstString(cc.Args[idx])
+				if !isConst {
+					bad = "a non-constant argument at " + p.InstrPos(in)
+				} else if s != strings.ToLower(s) {
+					bad = fmt.Sprintf("the mixed-case literal %q at %s", s, p.InstrPos(in))
+				}
+			})
+		}
+		if bad != "" {
+			r.Violated("extractor.isContentType/fold", p.InstrPos(cmp), "isContentType no longer folds its %s operand, and %s is compared as is against the lower-cased other side: that content type can never match, the page falls through to 'no extractor' and none of its URLs is discovered", fn.Params[idx].Name(), bad)
+			return
+		}
+	}
+	r.Held("extractor.isContentType/fold", 2, "both sides folded (or already lower-case at every call site)")
+}
